@@ -110,6 +110,9 @@ class RefsExtractor(ConversionsVisitor, ObjectVisitor, WithConversionsResolver):
 
     def object(self, tp: AnyType, fields: Sequence[ObjectField]):
         if parent := get_discriminated_parent(get_origin_or_type(tp)):
+            # the schema of a subclass always references its discriminated parent:
+            # count it twice to ensure its extraction (ref count > 1)
+            self._incr_ref(get_type_name(parent).json_schema, parent)
             self._incr_ref(get_type_name(parent).json_schema, parent)
         for field in fields:
             self.visit_with_conv(field.type, self._field_conversion(field))
